@@ -69,6 +69,14 @@ PATHS = {
     "choice": "do set_seed(3); choice(list(s)) end",
     "sample": "do set_seed(5); sample(list(s), 2) end",
     "shuffle": "do set_seed(7); shuffle(list(s)) end",
+    # the seeded generator: every seed, also the ones whose internal state
+    # passes through zero, gives one fixed sequence
+    "rand_seed0": "do set_seed(0); [random(1000), random(1000), random(1000)] end",
+    "rand_seed22643": "do set_seed(22643); [random(1000), random(1000), random(1000)] end",
+    "rand_seed1": "do set_seed(1); [random(), random(10), random(3, 9)] end",
+    "choice_set": "do set_seed(3); [choice(s), choice(s)] end",
+    "sample_set": "do set_seed(5); sample(s, 2) end",
+    "choices_set": "do set_seed(9); choices(list(s), 3) end",
     "reduce": "reduce(list(s), fn(x, y) string(x) + string(y))",
     "filter": "filter(list(s), fn(x) x != 'a')",
     "map_list": "map_list(list(s), fn(x) [x])",
@@ -372,6 +380,18 @@ def program_texts(calls, n):
     for k, d in progs.items():
         for c, src in d.items():
             flat[k + "|" + c] = src
+    # renderings of syntax trees: every construct of the corpus parsed and
+    # turned into text (a node that falls back to the host's default
+    # rendering shows a memory address, which differs from process to
+    # process)
+    from mc.gen.corpus import BASE_PROGRAMS, EVAL_PROGRAMS
+    for i, text in enumerate(BASE_PROGRAMS + EVAL_PROGRAMS):
+        src = "string(parse(" + literal(text) + "))"
+        flat[f"node:{i}|fwd"] = src
+        flat[f"node:{i}|rev"] = src
+        src = "string(body(fn() do " + text + "; end))"
+        flat[f"body:{i}|fwd"] = src
+        flat[f"body:{i}|rev"] = src
     return flat
 
 
@@ -405,6 +425,14 @@ def real_seed_runs(progs, seeds, agg):
                 key = json.dumps(results[seed][base + "|" + variant])
                 outs.setdefault(key, []).append((seed, variant))
         agg.count("real_seed_runs", len(seeds))
+        if name.endswith("|fwd") and any(" object at 0x" in k for k in outs):
+            k = [x for x in outs if " object at 0x" in x][0]
+            agg.violation(
+                {"path": base.split(":")[0], "host_address": True},
+                {"kind": "real", "name": base, "src": progs[name],
+                 "src_rev": progs[base + "|rev"], "nseeds": 2,
+                 "address": True}, "a rendering that depends on the value "
+                "only", k[:300], size=len(progs[name]))
         if len(outs) > 1 and name.endswith("|fwd"):
             keys = sorted(outs)
             agg.violation(
